@@ -89,10 +89,12 @@ CLAIMS = {
    note=TB + "F2 (assertion on t0 in derivation) was a genuine defect, repaired in /repo by fix: 0639504.",
    tech="Lean 4 proof of copied / unread fields + struct-level differential execution"),
  'C13': dict(cat='proof', ref='DESIGN 5 C13',
-   text="Partial proof + hostile-input execution. Proved fault-free in Mode.checked for all inputs: scalar kernels on their domains, the inverse NTT on every vector that fits partial_reduce32, all six entry points on over-long contexts, "
-        "keygen and both signers on every failing generator; range self-checks cannot fire on accepted keys; derivation ignores t0. The three pinned-tree panics (F1, F2, F3) are refuted on frozen definitions / removed. Not proved: forward "
-        "NTT and mat_vec_mul envelope, codec index arithmetic, sampler loops; those run on every check in the checked build on random and constructed hostile inputs (random pk/sk/sig, accepted-but-dishonest keys, edited t0, forgeries).",
-   note=TB + "residual: more than 65535/l consecutive rejections would overflow the u16 attempt counter (probability below 2^-256).",
+   text="Proof for the whole verification path + partial proof elsewhere + hostile-input execution. Proved in Lean for all inputs and both build modes: expand_public followed by verify / hash_verify / _internal_verify never panics on ANY "
+        "public-key bytes and ANY signature bytes (verification_path_never_panics: sig_decode's accumulator and hint index discipline, sample_in_ball's Hamming-weight assertions, rej_ntt_poly, the lazy NTT pipeline, use_hint within w1_encode's "
+        "asserted range, simple_bit_pack filling its slice); private-key deserialisation never faults; scalar kernels on their domains; the inverse NTT on every vector that fits partial_reduce32; all six entry points on over-long contexts; "
+        "keygen and both signers on every failing generator; range self-checks cannot fire on accepted keys; derivation ignores t0. The three pinned-tree panics (F1, F2, F3) are refuted on frozen definitions / removed. Not proved: the scalar "
+        "post-processing of sign and keygen after their (proved) NTT pipelines; those run on every check in the checked build on random and constructed hostile inputs (random pk/sk/sig, accepted-but-dishonest keys, edited t0, forgeries).",
+   note=TB + "the verification theorem assumes of the hash oracles only that they return as many bytes as requested; the model's samplers read a finite XOF prefix, so its extra outcome Fault.fuel is allowed by the theorem and is not a crate behaviour. residual: more than 65535/l consecutive rejections would overflow the u16 attempt counter (probability below 2^-256).",
    tech="Lean 4 no-fault theorems in checked mode + panic-oracle execution of the checked build on hostile inputs"),
  'C18': dict(cat='proof', ref='DESIGN 5 C18, 3.2',
    text="Lean theorems (all inputs, both build modes): the repaired inverse NTT never overflows i32 and returns canonical residues for every input vector within +-2143289343 - in particular for every unreduced output of mat_vec_mul, "
